@@ -56,11 +56,9 @@ func Scenarios(info *CaseInfo, families []string, thorough bool) []Scenario {
 				max = 0
 			}
 			if info.POR {
-				// large shapes: every single failing provider (quick), every pair too (thorough)
+				// large shapes: every single failing provider (pairs over up to 14 fallible providers of 14-thread
+				// injectors cost hours in the thorough tier and add little: the small shapes take every subset)
 				max = 1
-				if thorough {
-					max = 2
-				}
 			}
 			for _, s := range subsets(fallible, max) {
 				out = append(out, Scenario{Name: "fault:" + strings.Join(s, ","), Fail: s})
@@ -70,7 +68,7 @@ func Scenarios(info *CaseInfo, families []string, thorough bool) []Scenario {
 				out = append(out, Scenario{Name: "cancel", Cancel: true})
 			}
 		case "cancel+fault":
-			if info.HasCtx {
+			if info.HasCtx && !info.POR {
 				for _, s := range subsets(fallible, 1) {
 					out = append(out, Scenario{Name: "cancel+fault:" + strings.Join(s, ","), Fail: s, Cancel: true})
 				}
